@@ -1343,6 +1343,7 @@ def m_xof_read(E, st, fr, bi, callee, args, dest_ty):
     hook = E.ctx.hooks.get("xof_bytes")
     rd = deref2(E, st, args[0])
     lab = (rd.d.get("labels") or EMPTY) if type(rd) is Md else EMPTY
+    lab = frozenset(("H", l) for l in lab)      # output of the hash of the labelled inputs
     if n is not None and n <= 64:
         head = {i: (E.ctx.mk_int(st, *hook(i), u8, taint=lab) if hook else E.ctx.top_int(st, u8, taint=lab)) for i in range(n)}
         new = Sq(E.ctx.top_int(st, u8, taint=lab), s.len, head, None)
